@@ -28,14 +28,15 @@ def OutsideFat (fs : FsState) (q : Nat) : Prop :=
   q < (fatSliceOf fs).beginOff ∨ (fatSliceOf fs).beginOff + (fatSliceOf fs).mirrors * (fatSliceOf fs).size ≤ q
 
 /-- `set` at an entry of the table, at the level of the decoded table -/
-theorem run_table_set_view (fs : FsState) (s : DiskSlice) (hs : IsFatSlice fs s) (c : Nat) (v : FatValue) (d : Dev)
+theorem run_table_set_view_fine (fs : FsState) (s : DiskSlice) (hs : IsFatSlice fs s) (c : Nat) (v : FatValue) (d : Dev)
     (hd : FatDev fs d) (hc : c < fs.totalClusters + 2) (hv : Representable fs.fatType v) :
     ∃ d' s', run (Table.set DiskSlice.strm fs.fatType s c v) d = (.ok s', d') ∧ IsFatSlice fs s' ∧
       DevStep d d' ∧ d'.fs = d.fs ∧ tabView fs d'.img = updV (tabView fs d.img) c v ∧
-      (∀ q, OutsideFat fs q → d'.img.getByte q = d.img.getByte q) := by
+      (∀ q, OutsideFat fs q → d'.img.getByte q = d.img.getByte q) ∧
+      (∀ q, ¬ FatEntryPos fs c q → d'.img.getByte q = d.img.getByte q) := by
   obtain ⟨d1, s1, arr1, hr, hsl, hset, hu⟩ := run_table_set fs s hs c v d hd.nofault hd.dirty hd.wf hd.geo hc
   exact ⟨d1, s1, hr, hsl, hu.step, hu.fs_eq,
-    tabView_of_set hd.geo d.img d1.img hc hv (by rw [hu.arr]; exact hset), hu.frame⟩
+    tabView_of_set hd.geo d.img d1.img hc hv (by rw [hu.arr]; exact hset), hu.frame, hu.fine⟩
 
 /-- the view after freeing the clusters `cs` -/
 def freedView (g : Nat → FatValue) (cs : List Nat) : Nat → FatValue :=
@@ -58,13 +59,14 @@ theorem rep_free (ft : FatType) : Representable ft .free := by cases ft <;> triv
 theorem rep_eoc (ft : FatType) : Representable ft .eoc := by cases ft <;> trivial
 
 /-- the loop of `ClusterIterator::free` along a chain -/
-theorem run_freeLoop (fs : FsState) : ∀ (cs : List Nat) (n : Nat) (fuel : Nat) (it : Table.CIter DiskSlice)
+theorem run_freeLoop_fine (fs : FsState) : ∀ (cs : List Nat) (n : Nat) (fuel : Nat) (it : Table.CIter DiskSlice)
     (num : Nat) (d : Dev), FatDev fs d → Chain (tabView fs d.img) n cs → cs.Nodup →
     (∀ x ∈ cs, x < fs.totalClusters + 2) → cs.length + 1 ≤ fuel →
     it.cluster = some n → it.err = false → IsFatSlice fs it.fat →
     ∃ d' it', run (Table.CIter.freeLoop DiskSlice.strm fs.fatType fuel it num) d = (.ok (num + cs.length, it'), d') ∧
       DevStep d d' ∧ d'.fs = d.fs ∧ tabView fs d'.img = freedView (tabView fs d.img) cs ∧
-      (∀ q, OutsideFat fs q → d'.img.getByte q = d.img.getByte q) := by
+      (∀ q, OutsideFat fs q → d'.img.getByte q = d.img.getByte q) ∧
+      (∀ q, (∀ x ∈ cs, ¬ FatEntryPos fs x q) → d'.img.getByte q = d.img.getByte q) := by
   intro cs
   induction cs with
   | nil => intro n fuel it num d _ hch; exact absurd rfl (chain_ne_nil hch)
@@ -82,7 +84,7 @@ theorem run_freeLoop (fs : FsState) : ∀ (cs : List Nat) (n : Nat) (fuel : Nat)
     obtain ⟨d1, s1, h1, hs1, hsl1⟩ := run_citer_next fs it m d hd.nofault hd.geo hsl herr hc hmt
     rw [run_bind_ok h1]
     have hd1 := hd.same hs1
-    obtain ⟨d2, s2, h2, hsl2, hst2, hfs2, htv2, hfr2⟩ := run_table_set_view fs s1 hsl1 m .free d1 hd1 hmt
+    obtain ⟨d2, s2, h2, hsl2, hst2, hfs2, htv2, hfr2, hfi2⟩ := run_table_set_view_fine fs s1 hsl1 m .free d1 hd1 hmt
       (rep_free _)
     rw [hs1.img] at htv2
     have hd2 := hd1.step hst2 hfs2
@@ -98,12 +100,13 @@ theorem run_freeLoop (fs : FsState) : ∀ (cs : List Nat) (n : Nat) (fuel : Nat)
       subst hk'
       unfold Table.CIter.freeLoop
       simp only
-      refine ⟨d2, _, rfl, (DevStep.of_sameStore hs1).trans hst2, hfs2.trans hs1.fs, ?_, ?_⟩
+      refine ⟨d2, _, rfl, (DevStep.of_sameStore hs1).trans hst2, hfs2.trans hs1.fs, ?_, ?_, ?_⟩
       · rw [htv2]
         funext x
         unfold freedView updV
         by_cases hx : x = m <;> simp [hx]
       · intro q hq; rw [hfr2 q hq, hs1.img]
+      · intro q hq; rw [hfi2 q (hq m (by simp)), hs1.img]
     | cons _ k' _ hdk hch' =>
       have hnv : nextV (tabView fs d.img) m = some k' := nextV_data hdk
       rw [hnv]
@@ -112,38 +115,43 @@ theorem run_freeLoop (fs : FsState) : ∀ (cs : List Nat) (n : Nat) (fuel : Nat)
       have hmms : m ∉ ms := (List.nodup_cons.mp hnd).1
       have hch2 : Chain (tabView fs d2.img) k' ms := by
         rw [htv2]; exact chain_updV_other _ m .free _ _ hch' hmms
-      obtain ⟨d3, it3, h3, hst3, hfs3, htv3, hfr3⟩ := ih k' k
+      obtain ⟨d3, it3, h3, hst3, hfs3, htv3, hfr3, hfi3⟩ := ih k' k
         { it with fat := s2, cluster := some k' } (num + 1) d2 hd2 hch2 (List.nodup_cons.mp hnd).2
         (fun x hx => hin x (List.mem_cons_of_mem _ hx)) hfuel' rfl herr hsl2
-      refine ⟨d3, it3, ?_, ((DevStep.of_sameStore hs1).trans hst2).trans hst3, (hfs3.trans hfs2).trans hs1.fs, ?_, ?_⟩
+      refine ⟨d3, it3, ?_, ((DevStep.of_sameStore hs1).trans hst2).trans hst3, (hfs3.trans hfs2).trans hs1.fs, ?_, ?_,
+        ?_⟩
       · have e : num + 1 + ms.length = num + (m :: ms).length := by simp only [List.length_cons]; omega
         rw [h3, e]
       · rw [htv3, htv2, freedView_cons]
       · intro q hq; rw [hfr3 q hq, hfr2 q hq, hs1.img]
+      · intro q hq
+        rw [hfi3 q (fun x hx => hq x (List.mem_cons_of_mem _ hx)), hfi2 q (hq m (by simp)), hs1.img]
 
 /-- `ClusterIterator::free` from the head of a chain -/
-theorem run_citer_free (fs : FsState) (cs : List Nat) (n fuel : Nat) (s : DiskSlice) (d : Dev) (hd : FatDev fs d)
+theorem run_citer_free_fine (fs : FsState) (cs : List Nat) (n fuel : Nat) (s : DiskSlice) (d : Dev) (hd : FatDev fs d)
     (hch : Chain (tabView fs d.img) n cs) (hnd : cs.Nodup) (hin : ∀ x ∈ cs, x < fs.totalClusters + 2)
     (hfuel : cs.length + 1 ≤ fuel) (hsl : IsFatSlice fs s) :
     ∃ d' it', run (Table.CIter.free DiskSlice.strm fs.fatType fuel { fat := s, cluster := some n }) d =
         (.ok (cs.length, it'), d') ∧
       DevStep d d' ∧ d'.fs = d.fs ∧ tabView fs d'.img = freedView (tabView fs d.img) cs ∧
-      (∀ q, OutsideFat fs q → d'.img.getByte q = d.img.getByte q) := by
-  obtain ⟨d1, it1, h1, r⟩ := run_freeLoop fs cs n fuel { fat := s, cluster := some n } 0 d hd hch hnd hin hfuel
+      (∀ q, OutsideFat fs q → d'.img.getByte q = d.img.getByte q) ∧
+      (∀ q, (∀ x ∈ cs, ¬ FatEntryPos fs x q) → d'.img.getByte q = d.img.getByte q) := by
+  obtain ⟨d1, it1, h1, r⟩ := run_freeLoop_fine fs cs n fuel { fat := s, cluster := some n } 0 d hd hch hnd hin hfuel
     rfl rfl hsl
   refine ⟨d1, it1, ?_, r⟩
   unfold Table.CIter.free
   rw [h1, Nat.zero_add]
 
 /-- `ClusterIterator::truncate` at the head `n` of a chain `n :: t`: `n` becomes the end of the chain, `t` is freed -/
-theorem run_citer_truncate (fs : FsState) (t : List Nat) (n fuel : Nat) (s : DiskSlice) (d : Dev) (hd : FatDev fs d)
+theorem run_citer_truncate_fine (fs : FsState) (t : List Nat) (n fuel : Nat) (s : DiskSlice) (d : Dev) (hd : FatDev fs d)
     (hch : Chain (tabView fs d.img) n (n :: t)) (hnd : (n :: t).Nodup)
     (hin : ∀ x ∈ n :: t, x < fs.totalClusters + 2) (hfuel : t.length + 2 ≤ fuel) (hsl : IsFatSlice fs s) :
     ∃ d' it', run (Table.CIter.truncate DiskSlice.strm fs.fatType fuel { fat := s, cluster := some n }) d =
         (.ok (t.length, it'), d') ∧
       DevStep d d' ∧ d'.fs = d.fs ∧
       tabView fs d'.img = freedView (updV (tabView fs d.img) n .eoc) t ∧
-      (∀ q, OutsideFat fs q → d'.img.getByte q = d.img.getByte q) := by
+      (∀ q, OutsideFat fs q → d'.img.getByte q = d.img.getByte q) ∧
+      (∀ q, (∀ x ∈ n :: t, ¬ FatEntryPos fs x q) → d'.img.getByte q = d.img.getByte q) := by
   have hnt : n < fs.totalClusters + 2 := hin n (by simp)
   unfold Table.CIter.truncate
   simp only
@@ -151,7 +159,7 @@ theorem run_citer_truncate (fs : FsState) (t : List Nat) (n fuel : Nat) (s : Dis
     rfl rfl hnt
   rw [run_bind_ok h1]
   have hd1 := hd.same hs1
-  obtain ⟨d2, s2, h2, hsl2, hst2, hfs2, htv2, hfr2⟩ := run_table_set_view fs s1 hsl1 n .eoc d1 hd1 hnt (rep_eoc _)
+  obtain ⟨d2, s2, h2, hsl2, hst2, hfs2, htv2, hfr2, hfi2⟩ := run_table_set_view_fine fs s1 hsl1 n .eoc d1 hd1 hnt (rep_eoc _)
   rw [hs1.img] at htv2
   have hd2 := hd1.step hst2 hfs2
   cases hch with
@@ -162,11 +170,13 @@ theorem run_citer_truncate (fs : FsState) (t : List Nat) (n fuel : Nat) (s : Dis
     rw [run_bind_ok h2]
     obtain ⟨k, hk⟩ : ∃ k, fuel = k + 1 := ⟨fuel - 1, by omega⟩
     subst hk
-    refine ⟨d2, { fat := s2, cluster := none }, ?_, (DevStep.of_sameStore hs1).trans hst2, hfs2.trans hs1.fs, ?_, ?_⟩
+    refine ⟨d2, { fat := s2, cluster := none }, ?_, (DevStep.of_sameStore hs1).trans hst2, hfs2.trans hs1.fs, ?_, ?_,
+      ?_⟩
     · unfold Table.CIter.free Table.CIter.freeLoop
       rfl
     · rw [htv2, freedView_nil]
     · intro q hq; rw [hfr2 q hq, hs1.img]
+    · intro q hq; rw [hfi2 q (hq n (by simp)), hs1.img]
   | cons _ k' _ hdk hch' =>
     have hnv : nextV (tabView fs d.img) n = some k' := nextV_data hdk
     rw [hnv]
@@ -175,11 +185,14 @@ theorem run_citer_truncate (fs : FsState) (t : List Nat) (n fuel : Nat) (s : Dis
     have hnt' : n ∉ t := (List.nodup_cons.mp hnd).1
     have hch2 : Chain (tabView fs d2.img) k' t := by
       rw [htv2]; exact chain_updV_other _ n .eoc _ _ hch' hnt'
-    obtain ⟨d3, it3, h3, hst3, hfs3, htv3, hfr3⟩ := run_citer_free fs t k' fuel s2 d2 hd2 hch2
+    obtain ⟨d3, it3, h3, hst3, hfs3, htv3, hfr3, hfi3⟩ := run_citer_free_fine fs t k' fuel s2 d2 hd2 hch2
       (List.nodup_cons.mp hnd).2 (fun x hx => hin x (List.mem_cons_of_mem _ hx)) (by omega) hsl2
-    refine ⟨d3, it3, h3, ((DevStep.of_sameStore hs1).trans hst2).trans hst3, (hfs3.trans hfs2).trans hs1.fs, ?_, ?_⟩
+    refine ⟨d3, it3, h3, ((DevStep.of_sameStore hs1).trans hst2).trans hst3, (hfs3.trans hfs2).trans hs1.fs, ?_, ?_,
+      ?_⟩
     · rw [htv3, htv2]
     · intro q hq; rw [hfr3 q hq, hfr2 q hq, hs1.img]
+    · intro q hq
+      rw [hfi3 q (fun x hx => hq x (List.mem_cons_of_mem _ hx)), hfi2 q (hq n (by simp)), hs1.img]
 
 /-- the bookkeeping after freeing clusters: `map_free_clusters(|n| n + num)` -/
 theorem infoOk_after_free {fs : FsState} {img img' : Img} (hinfo : InfoOk fs img) (cs : List Nat)
@@ -212,14 +225,15 @@ theorem chain_fuel_ok {fs : FsState} {cs : List Nat} (hnd : cs.Nodup) (hin : ∀
   unfold chainFuel; omega
 
 /-- `FileSystem::truncate_cluster_chain(cur)` -/
-theorem run_truncateClusterChain (cur : Nat) (t : List Nat) (d : Dev) (hd : FatDev d.fs d) (hinfo : InfoOk d.fs d.img)
+theorem run_truncateClusterChain_fine (cur : Nat) (t : List Nat) (d : Dev) (hd : FatDev d.fs d) (hinfo : InfoOk d.fs d.img)
     (hch : Chain (tabView d.fs d.img) cur (cur :: t)) (hnd : (cur :: t).Nodup)
     (hin : ∀ x ∈ cur :: t, 2 ≤ x ∧ x < d.fs.totalClusters + 2 ∧ tabView d.fs d.img x ≠ .free) :
     ∃ d', run (truncateClusterChain cur) d = (.ok (), d') ∧ DevStep d d' ∧
       tabView d'.fs d'.img = freedView (updV (tabView d.fs d.img) cur .eoc) t ∧ InfoOk d'.fs d'.img ∧
-      (∀ q, OutsideFat d.fs q → d'.img.getByte q = d.img.getByte q) := by
+      (∀ q, OutsideFat d.fs q → d'.img.getByte q = d.img.getByte q) ∧
+      (∀ q, (∀ x ∈ cur :: t, ¬ FatEntryPos d.fs x q) → d'.img.getByte q = d.img.getByte q) := by
   have hfuel := chain_fuel_ok hnd (fun x hx => (hin x hx).2.1)
-  obtain ⟨d1, it1, h1, hst1, hfs1, htv1, hfr1⟩ := run_citer_truncate d.fs t cur (chainFuel d.fs) (fatSliceOf d.fs) d hd
+  obtain ⟨d1, it1, h1, hst1, hfs1, htv1, hfr1, hfi1⟩ := run_citer_truncate_fine d.fs t cur (chainFuel d.fs) (fatSliceOf d.fs) d hd
     hch hnd (fun x hx => (hin x hx).2.1) (by simp at hfuel ⊢; omega) (isFatSlice_self _)
   unfold truncateClusterChain
   rw [run_bind_ok (run_getFs d)]
@@ -228,7 +242,7 @@ theorem run_truncateClusterChain (cur : Nat) (t : List Nat) (d : Dev) (hd : FatD
   have hgeo : FsGeomEq d.fs ({ d1.fs with fsInfo := d1.fs.fsInfo.mapFree (· + t.length) } : FsState) := by
     rw [hfs1]; rfl
   have hcurnt : cur ∉ t := (List.nodup_cons.mp hnd).1
-  refine ⟨_, rfl, ⟨hst1.failAt, hst1.size, hst1.wf, hgeo, hst1.clock⟩, ?_, ?_, hfr1⟩
+  refine ⟨_, rfl, ⟨hst1.failAt, hst1.size, hst1.wf, hgeo, hst1.clock⟩, ?_, ?_, hfr1, hfi1⟩
   · show tabView ({ d1.fs with fsInfo := d1.fs.fsInfo.mapFree (· + t.length) } : FsState) d1.img = _
     rw [hgeo.tabView]; exact htv1
   · show InfoOk ({ d1.fs with fsInfo := d1.fs.fsInfo.mapFree (· + t.length) } : FsState) d1.img
@@ -248,14 +262,15 @@ theorem run_truncateClusterChain (cur : Nat) (t : List Nat) (d : Dev) (hd : FatD
       · rw [updV_ne _ _ _ _ hic]
 
 /-- `FileSystem::free_cluster_chain(n)` -/
-theorem run_freeClusterChain (n : Nat) (cs : List Nat) (d : Dev) (hd : FatDev d.fs d) (hinfo : InfoOk d.fs d.img)
+theorem run_freeClusterChain_fine (n : Nat) (cs : List Nat) (d : Dev) (hd : FatDev d.fs d) (hinfo : InfoOk d.fs d.img)
     (hch : Chain (tabView d.fs d.img) n cs) (hnd : cs.Nodup)
     (hin : ∀ x ∈ cs, 2 ≤ x ∧ x < d.fs.totalClusters + 2 ∧ tabView d.fs d.img x ≠ .free) :
     ∃ d', run (freeClusterChain n) d = (.ok (), d') ∧ DevStep d d' ∧
       tabView d'.fs d'.img = freedView (tabView d.fs d.img) cs ∧ InfoOk d'.fs d'.img ∧
-      (∀ q, OutsideFat d.fs q → d'.img.getByte q = d.img.getByte q) := by
+      (∀ q, OutsideFat d.fs q → d'.img.getByte q = d.img.getByte q) ∧
+      (∀ q, (∀ x ∈ cs, ¬ FatEntryPos d.fs x q) → d'.img.getByte q = d.img.getByte q) := by
   have hfuel := chain_fuel_ok hnd (fun x hx => (hin x hx).2.1)
-  obtain ⟨d1, it1, h1, hst1, hfs1, htv1, hfr1⟩ := run_citer_free d.fs cs n (chainFuel d.fs) (fatSliceOf d.fs) d hd
+  obtain ⟨d1, it1, h1, hst1, hfs1, htv1, hfr1, hfi1⟩ := run_citer_free_fine d.fs cs n (chainFuel d.fs) (fatSliceOf d.fs) d hd
     hch hnd (fun x hx => (hin x hx).2.1) hfuel (isFatSlice_self _)
   unfold freeClusterChain
   rw [run_bind_ok (run_getFs d)]
@@ -263,7 +278,7 @@ theorem run_freeClusterChain (n : Nat) (cs : List Nat) (d : Dev) (hd : FatDev d.
   rw [run_bind_ok h1, run_modifyFs]
   have hgeo : FsGeomEq d.fs ({ d1.fs with fsInfo := d1.fs.fsInfo.mapFree (· + cs.length) } : FsState) := by
     rw [hfs1]; rfl
-  refine ⟨_, rfl, ⟨hst1.failAt, hst1.size, hst1.wf, hgeo, hst1.clock⟩, ?_, ?_, hfr1⟩
+  refine ⟨_, rfl, ⟨hst1.failAt, hst1.size, hst1.wf, hgeo, hst1.clock⟩, ?_, ?_, hfr1, hfi1⟩
   · show tabView ({ d1.fs with fsInfo := d1.fs.fsInfo.mapFree (· + cs.length) } : FsState) d1.img = _
     rw [hgeo.tabView]; exact htv1
   · show InfoOk ({ d1.fs with fsInfo := d1.fs.fsInfo.mapFree (· + cs.length) } : FsState) d1.img
@@ -271,5 +286,65 @@ theorem run_freeClusterChain (n : Nat) (cs : List Nat) (d : Dev) (hd : FatDev d.
     refine infoOk_after_free hinfo cs _ htv1 hnd hin ?_ ?_
     · intro i hi; unfold freedView; rw [if_pos hi]
     · intro i hi; unfold freedView; rw [if_neg hi]
+
+/-! ### the same statements without the entry-window frame (the form other modules use) -/
+
+theorem run_table_set_view (fs : FsState) (s : DiskSlice) (hs : IsFatSlice fs s) (c : Nat) (v : FatValue) (d : Dev)
+    (hd : FatDev fs d) (hc : c < fs.totalClusters + 2) (hv : Representable fs.fatType v) :
+    ∃ d' s', run (Table.set DiskSlice.strm fs.fatType s c v) d = (.ok s', d') ∧ IsFatSlice fs s' ∧
+      DevStep d d' ∧ d'.fs = d.fs ∧ tabView fs d'.img = updV (tabView fs d.img) c v ∧
+      (∀ q, OutsideFat fs q → d'.img.getByte q = d.img.getByte q) := by
+  obtain ⟨d', s', h1, h2, h3, h4, h5, h6, _⟩ := run_table_set_view_fine fs s hs c v d hd hc hv
+  exact ⟨d', s', h1, h2, h3, h4, h5, h6⟩
+
+theorem run_freeLoop (fs : FsState) : ∀ (cs : List Nat) (n : Nat) (fuel : Nat) (it : Table.CIter DiskSlice)
+    (num : Nat) (d : Dev), FatDev fs d → Chain (tabView fs d.img) n cs → cs.Nodup →
+    (∀ x ∈ cs, x < fs.totalClusters + 2) → cs.length + 1 ≤ fuel →
+    it.cluster = some n → it.err = false → IsFatSlice fs it.fat →
+    ∃ d' it', run (Table.CIter.freeLoop DiskSlice.strm fs.fatType fuel it num) d = (.ok (num + cs.length, it'), d') ∧
+      DevStep d d' ∧ d'.fs = d.fs ∧ tabView fs d'.img = freedView (tabView fs d.img) cs ∧
+      (∀ q, OutsideFat fs q → d'.img.getByte q = d.img.getByte q) := by
+  intro cs n fuel it num d hd hch hnd hin hfuel hcl herr hsl
+  obtain ⟨d', it', h1, h2, h3, h4, h5, _⟩ := run_freeLoop_fine fs cs n fuel it num d hd hch hnd hin hfuel hcl herr hsl
+  exact ⟨d', it', h1, h2, h3, h4, h5⟩
+
+theorem run_citer_free (fs : FsState) (cs : List Nat) (n fuel : Nat) (s : DiskSlice) (d : Dev) (hd : FatDev fs d)
+    (hch : Chain (tabView fs d.img) n cs) (hnd : cs.Nodup) (hin : ∀ x ∈ cs, x < fs.totalClusters + 2)
+    (hfuel : cs.length + 1 ≤ fuel) (hsl : IsFatSlice fs s) :
+    ∃ d' it', run (Table.CIter.free DiskSlice.strm fs.fatType fuel { fat := s, cluster := some n }) d =
+        (.ok (cs.length, it'), d') ∧
+      DevStep d d' ∧ d'.fs = d.fs ∧ tabView fs d'.img = freedView (tabView fs d.img) cs ∧
+      (∀ q, OutsideFat fs q → d'.img.getByte q = d.img.getByte q) := by
+  obtain ⟨d', it', h1, h2, h3, h4, h5, _⟩ := run_citer_free_fine fs cs n fuel s d hd hch hnd hin hfuel hsl
+  exact ⟨d', it', h1, h2, h3, h4, h5⟩
+
+theorem run_citer_truncate (fs : FsState) (t : List Nat) (n fuel : Nat) (s : DiskSlice) (d : Dev) (hd : FatDev fs d)
+    (hch : Chain (tabView fs d.img) n (n :: t)) (hnd : (n :: t).Nodup)
+    (hin : ∀ x ∈ n :: t, x < fs.totalClusters + 2) (hfuel : t.length + 2 ≤ fuel) (hsl : IsFatSlice fs s) :
+    ∃ d' it', run (Table.CIter.truncate DiskSlice.strm fs.fatType fuel { fat := s, cluster := some n }) d =
+        (.ok (t.length, it'), d') ∧
+      DevStep d d' ∧ d'.fs = d.fs ∧
+      tabView fs d'.img = freedView (updV (tabView fs d.img) n .eoc) t ∧
+      (∀ q, OutsideFat fs q → d'.img.getByte q = d.img.getByte q) := by
+  obtain ⟨d', it', h1, h2, h3, h4, h5, _⟩ := run_citer_truncate_fine fs t n fuel s d hd hch hnd hin hfuel hsl
+  exact ⟨d', it', h1, h2, h3, h4, h5⟩
+
+theorem run_truncateClusterChain (cur : Nat) (t : List Nat) (d : Dev) (hd : FatDev d.fs d) (hinfo : InfoOk d.fs d.img)
+    (hch : Chain (tabView d.fs d.img) cur (cur :: t)) (hnd : (cur :: t).Nodup)
+    (hin : ∀ x ∈ cur :: t, 2 ≤ x ∧ x < d.fs.totalClusters + 2 ∧ tabView d.fs d.img x ≠ .free) :
+    ∃ d', run (truncateClusterChain cur) d = (.ok (), d') ∧ DevStep d d' ∧
+      tabView d'.fs d'.img = freedView (updV (tabView d.fs d.img) cur .eoc) t ∧ InfoOk d'.fs d'.img ∧
+      (∀ q, OutsideFat d.fs q → d'.img.getByte q = d.img.getByte q) := by
+  obtain ⟨d', h1, h2, h3, h4, h5, _⟩ := run_truncateClusterChain_fine cur t d hd hinfo hch hnd hin
+  exact ⟨d', h1, h2, h3, h4, h5⟩
+
+theorem run_freeClusterChain (n : Nat) (cs : List Nat) (d : Dev) (hd : FatDev d.fs d) (hinfo : InfoOk d.fs d.img)
+    (hch : Chain (tabView d.fs d.img) n cs) (hnd : cs.Nodup)
+    (hin : ∀ x ∈ cs, 2 ≤ x ∧ x < d.fs.totalClusters + 2 ∧ tabView d.fs d.img x ≠ .free) :
+    ∃ d', run (freeClusterChain n) d = (.ok (), d') ∧ DevStep d d' ∧
+      tabView d'.fs d'.img = freedView (tabView d.fs d.img) cs ∧ InfoOk d'.fs d'.img ∧
+      (∀ q, OutsideFat d.fs q → d'.img.getByte q = d.img.getByte q) := by
+  obtain ⟨d', h1, h2, h3, h4, h5, _⟩ := run_freeClusterChain_fine n cs d hd hinfo hch hnd hin
+  exact ⟨d', h1, h2, h3, h4, h5⟩
 
 end FatVerif.FileSim
